@@ -928,36 +928,56 @@ def isWordTok (t : Tok) : Bool :=
 def kwMacroRules : List Char := ['m','a','c','r','o','_','r','u','l','e','s']
 def kwLazyStatic : List Char := ['l','a','z','y','_','s','t','a','t','i','c']
 
+def isLoopKw (t : Tok) : Bool := t.isI kwLoop || t.isI kwWhile || t.isI kwFor
+
+/-- the per-statement flags of `semiSep`: `cur` the statement began with a jump keyword; `lp` it
+began with `loop` / `while` / `for` (possibly labelled) and its body has not been seen yet -/
+structure StmtSt where
+  cur : Bool := false
+  lp : Bool := false
+
+/-- statement-start bookkeeping: `start` 0 inside a statement, 1 at its start (after `{` or `;`),
+2 after `}` (punctuation continues the expression, a word begins a new statement), 3 after a label
+at the start, 4 after the `:` of that label.  Returns the flags and the next `start` (before
+brackets and `;` have their say). -/
+def stmtStep (s : StmtSt) (start : Nat) (t : Tok) : StmtSt × Nat :=
+  if (start == 1 || start == 2) && t.cls == ['l'] then ({}, 3)
+  else if start == 3 then (if t.isP ':' then ({}, 4) else ({}, 0))
+  else if start == 1 || start == 4 then ({ cur := isJumpKw t, lp := isLoopKw t }, 0)
+  else if start == 2 then
+    (if isWordTok t then ({ cur := isJumpKw t, lp := isLoopKw t }, 0) else (s, 0))
+  else (s, 0)
+
 /-- Rules 1 and 6 for `;`: an empty statement (`;` directly after `{`, or followed by another `;`),
 the `;` that ends a `return` / `break` / `continue` statement directly before `}`
-(`trailing_semicolon`), and the `;` after the last rule of a `macro_rules!` definition or the last
-item of a `lazy_static!` call (the two macro bodies the formatter re-punctuates).  Any other
+(`trailing_semicolon`), the `;` directly after the body of a `loop` / `while` / `for` STATEMENT
+(`semicolon_for_stmt` drops it), and the `;` after the last rule of a `macro_rules!` definition or
+the last item of a `lazy_static!` call (the two macro bodies the formatter re-punctuates).  Any other
 `;` before `}` is kept: `{ f(); }` and `{ f() }` differ.
-`st`: one pair per open bracket (the flags `cur`, `md` of the surroundings); `cur`: the current
-statement began with a jump keyword; `md`: directly inside the body of a `macro_rules!` definition / `lazy_static!` call;
-`start`: the next token begins a statement (1: after `{` or `;`; 2: after `}`, where punctuation
-continues the expression); `pend`: 1 after `macro_rules`, 2 after `macro_rules !` (and the name);
-`lo`: last token emitted. -/
-def semiSep : List (Bool × Bool) → Bool → Bool → Nat → Nat → Tok → List Tok → List Tok
-  | _, _, _, _, _, _, [] => []
-  | st, cur, md, start, pend, lo, t :: ts =>
-    let cur := if start == 1 then isJumpKw t
-      else if start == 2 then (if isJumpKw t then true else if isWordTok t then false else cur)
-      else cur
+`st`: one entry per open bracket (flags of the surroundings, `md` of the surroundings, the bracket
+is a loop body); `md`: directly inside the body of a `macro_rules!` definition / `lazy_static!`
+call; `al`: the previous token closed a loop body; `pend`: 1 after `macro_rules`, 2 after
+`macro_rules !` (and the name); `lo`: last token emitted. -/
+def semiSep : List (StmtSt × Bool × Bool) → StmtSt → Bool → Bool → Nat → Nat → Tok → List Tok → List Tok
+  | _, _, _, _, _, _, _, [] => []
+  | st, s, md, al, start, pend, lo, t :: ts =>
+    let (s, start') := stmtStep s start t
     let pend' := if t.isI kwMacroRules || t.isI kwLazyStatic then 1
       else if pend == 1 && t.isP '!' then 2
       else if pend == 2 && (t.isP '$' || t.cls == ['i'] || t.cls == ['r']) then 2
       else 0
-    if t.isOpen then t :: semiSep ((cur, md) :: st) false (pend == 2) (if t.isO '{' then 1 else 0) 0 t ts
+    if t.isOpen then
+      t :: semiSep ((if t.isO '{' then { s with lp := false } else s, md, t.isO '{' && s.lp) :: st) {} (pend == 2) false
+        (if t.isO '{' then 1 else 0) 0 t ts
     else if t.isClose then
       (match st with
-       | (c, m) :: st' => t :: semiSep st' c m (if t.isC '}' then 2 else 0) 0 t ts
-       | [] => t :: semiSep [] false false (if t.isC '}' then 2 else 0) 0 t ts)
+       | (s', m, body) :: st' => t :: semiSep st' s' m body (if t.isC '}' then 2 else 0) 0 t ts
+       | [] => t :: semiSep [] {} false false (if t.isC '}' then 2 else 0) 0 t ts)
     else if t.isP ';' then
-      (if headIs (·.isP ';') ts || lo.isO '{' || (cur && headIs (·.isC '}') ts) || (md && headIs (·.isClose) ts) then
-         semiSep st false md 1 0 lo ts
-       else t :: semiSep st false md 1 0 t ts)
-    else t :: semiSep st cur md 0 pend' t ts
+      (if headIs (·.isP ';') ts || lo.isO '{' || al || (s.cur && headIs (·.isC '}') ts) || (md && headIs (·.isClose) ts) then
+         semiSep st {} md false 1 0 lo ts
+       else t :: semiSep st {} md false 1 0 t ts)
+    else t :: semiSep st s md false start' pend' t ts
 
 def isTupleKw (t : Tok) : Bool :=
   t.isI ['l','e','t'] || t.isI kwIn || t.isI kwReturn || t.isI ['m','a','t','c','h'] || t.isI ['i','f'] ||
@@ -1166,7 +1186,7 @@ def post (cfg : Cfg) (ts : List Tok) : List Tok :=
   let ts := runRule ruleEmpty ts
   let ts := runRule rulePipe ts
   let ts := closureSep 0 0 noTok ts
-  let ts := semiSep [] false false 1 0 noTok ts
+  let ts := semiSep [] {} false false 1 0 noTok ts
   let ts := runRule ruleBlock ts
   let ts := runRule ruleComma ts
   let ts := onlyIf cfg.parens (runRule ruleParen) ts
